@@ -207,8 +207,9 @@ pub struct Toolchain {
 pub fn toolchain() -> Result<Toolchain, String> {
 	let out = Command::new("cargo")
 		.args(["build", "--release", "--offline", "-p", "subjects", "--message-format=json"])
-		.current_dir(format!("{}/harness", VERIF))
+		.current_dir(format!("{}/harness", verif_root()))
 		.env("RUSTFLAGS", "--cfg parity_scale_codec_verif")
+		.env("CARGO_TARGET_DIR", format!("{}/target/harness", verif_root()))
 		.output()
 		.map_err(|e| format!("cannot run cargo: {}", e))?;
 	if !out.status.success() {
@@ -229,7 +230,7 @@ pub fn toolchain() -> Result<Toolchain, String> {
 	}
 	let codec_rlib = rlib.ok_or("parity_scale_codec rlib not found in cargo's output")?;
 	let deps_dir = PathBuf::from(&codec_rlib).parent().unwrap().to_string_lossy().to_string();
-	let work = PathBuf::from(format!("{}/target/c17/{}", VERIF, std::process::id()));
+	let work = PathBuf::from(format!("{}/target/c17/{}", verif_root(), std::process::id()));
 	std::fs::create_dir_all(&work).map_err(|e| e.to_string())?;
 	Ok(Toolchain { codec_rlib, deps_dir, work })
 }
@@ -248,7 +249,7 @@ pub fn compile(tc: &Toolchain, idx: usize, p: &Prog) -> Result<(bool, String), S
 		.arg("--out-dir")
 		.arg(&tc.work)
 		.arg(&file)
-		.env("CARGO_MANIFEST_DIR", format!("{}/harness/subjects", VERIF))
+		.env("CARGO_MANIFEST_DIR", format!("{}/harness/subjects", verif_root()))
 		.env("CARGO", "cargo")
 		.output()
 		.map_err(|e| format!("cannot run rustc: {}", e))?;
